@@ -5,7 +5,8 @@ CONSTANTS
   SigForms = {"full", "nov", "vflip", "rflip", "empty", "short", "long"}
   MaxOps = 12
   MaxChurn = 1
+  Suites = {"none", "tls:chacha", "ecdhe:chacha"}
   DialerSelfCheck = TRUE
   RecordHist = FALSE
-INVARIANT AcceptorFresh SecretsDistinct ReplayedNeverIdentified BoundToSession NoImpersonationAtAcceptor NoIdentityWithoutKey DialerSeesSessionEnd AttackerNeverOther
+INVARIANT SecretExists AcceptorFresh SecretsDistinct ReplayedNeverIdentified BoundToSession NoImpersonationAtAcceptor NoIdentityWithoutKey DialerSeesSessionEnd AttackerNeverOther
 PROPERTIES IdentityFinal ClosedStaysClosed
